@@ -46,3 +46,48 @@ pub fn fixtures(ctx: &Ctx) {
 	}
 	ctx.put("fixture_selftest", serde_json::json!({ "fixtures_in_encoder_image": n, "files": names }));
 }
+
+/// Fixtures decoded through the engine's own walker + spec tables must agree with peppi's read
+/// (guards the tables against my own misreading of the spec: real recorder output, 9 versions).
+pub fn fixtures_vs_model(ctx: &Ctx) {
+	let dir = fixture_dir();
+	let mut entries: Vec<_> = match std::fs::read_dir(&dir) {
+		Ok(d) => d.filter_map(|e| e.ok()).map(|e| e.path()).collect(),
+		Err(_) => return,
+	};
+	entries.sort();
+	let mut ok = 0;
+	let mut disagreements = Vec::new();
+	for p in entries {
+		let name = p.file_name().unwrap().to_string_lossy().to_string();
+		if !name.ends_with(".slp") || name == "corrupt.slp" {
+			continue;
+		}
+		// keep start-up cheap: the big fixtures are covered by the smaller ones of the same version
+		if std::fs::metadata(&p).map(|m| m.len()).unwrap_or(0) > 1_600_000 && !name.starts_with("v") {
+			continue;
+		}
+		let bytes = std::fs::read(&p).unwrap();
+		let raw = crate::model::walk(&bytes).unwrap();
+		let m = match crate::model::model_from_raw(&raw) {
+			Ok(m) => m,
+			Err(e) => {
+				disagreements.push(format!("{}: engine decoder: {}", name, e));
+				continue;
+			}
+		};
+		match crate::rt::slp_read_default(&bytes) {
+			crate::rt::Out::Ok(g) => match crate::cmp::game_matches_model(&g, &m) {
+				Ok(()) => ok += 1,
+				Err(e) => disagreements.push(format!("{}: {}", name, e)),
+			},
+			o => disagreements.push(format!("{}: peppi read {}", name, o.kind())),
+		}
+	}
+	ctx.put("fixtures_agreeing_with_engine_decoder", serde_json::json!(ok));
+	if !disagreements.is_empty() {
+		// not a verdict by itself (either side may be wrong); shown so it is examined by hand
+		ctx.put("fixture_disagreements", serde_json::json!(disagreements));
+		eprintln!("note: fixture disagreements (examine by hand): {:?}", disagreements);
+	}
+}
